@@ -78,7 +78,7 @@ Profile profile_for(const std::string &c) {
     } else if (c == "C19") {
         set(p.w_driver, {{SUBS, 30}, {LIFE, 36}, {REG, 8}, {CTX, 10}, {MSG, 6}});
         set(p.w_script, {{LIFE, 40}, {SUBS, 16}, {CTX, 16}, {REG, 6}, {MSG, 6}});
-        p.mod_flag_bits = 0; p.src_kinds = 0; p.sub_flag_bits = 0; p.sys_topics = true; p.hooks_all = true;
+        p.mod_flag_bits = 32 | 64; p.src_kinds = 0; p.sub_flag_bits = 0; p.sys_topics = true; p.hooks_all = true;   // (modules denied publishing/subscribing still are the subject of notifications)
     } else if (c == "C20") {
         set(p.w_driver, {{SRC, 50}, {LIFE, 24}, {ENV, 10}, {REG, 5}, {MSG, 4}, {REF, 4}});
         set(p.w_script, {{SRC, 30}, {LIFE, 26}, {CTX, 8}, {REF, 14}, {MSG, 4}});
@@ -121,6 +121,8 @@ struct Gen {
             // avoid(known finding: task thread vs module stop/pause): programs that use task sources outside C04 do not
             // stop/pause/deregister modules
             if (tasks_in_program && camp != "C04" && strcmp(nm, "start") && strcmp(nm, "resume")) nm = "start";
+            // ... and a stop callback (which also runs at teardown) starts nothing: a module started then would launch its tasks and be stopped under them
+            if (tasks_in_program && camp != "C04" && where.find(".stop.") != std::string::npos) { p.add(where, "query", {rmod(), (long)r.below(4)}); break; }
             p.add(where, nm, {rmod()});
             break;
         }
@@ -219,13 +221,13 @@ struct Gen {
             if (in_cb) {
                 if (k < 9) p.add(where, "ctx_quit", {(long)r.below(6)});
                 else if (k < 11) p.add(where, "ctx_misc", {(long)r.below(5)});
-                else if (k < 13) p.add(where, "ctx_dereg");
+                else if (k < 13) p.add(where, tasks_in_program && camp != "C04" ? "ctx_misc" : "ctx_dereg");   // avoid(task thread vs module stop): deregistering the context stops its modules
                 else if (k < 14) p.add(where, "ctx_reg", {(long)r.below(2)});
                 else if (k < 16) p.add(where, "ctx_tick", {(long)r.below(6)});
                 else if (k < 17) p.add(where, "ctx_finalize");
                 else p.add(where, "ctx_quit", {(long)r.below(256)});
             } else {
-                if (k < 5) p.add(where, "ctx_dereg");
+                if (k < 5) p.add(where, tasks_in_program && camp != "C04" ? "ctx_misc" : "ctx_dereg");
                 else if (k < 9) p.add(where, "ctx_reg", {(long)r.below(2)});
                 else if (k < 11) p.add(where, "ctx_quit", {(long)r.below(6)});
                 else if (k < 13) p.add(where, "ctx_finalize");
@@ -284,7 +286,8 @@ Program gen_core(const std::string &campaign, uint64_t seed, bool thorough) {
     // avoid(known finding C09: one descriptor cannot be polled for two modules of a context; two auto-closing owners would also be the
     // program's own double close): every module registers private descriptors only
     p.set("fdpermod", 1);
-    g.tasks_in_program = campaign == "C04" ? r.chance(0.6) : r.chance(0.3);
+    if (campaign == "C20") p.set("filefds", r.chance(0.5) ? 1 : 0);   // every third user descriptor is one epoll refuses
+    g.tasks_in_program = (campaign == "C04" ? r.chance(0.6) : r.chance(0.3)) && (g.pf.src_kinds & 32);   // (only where task sources can be generated at all)
     p.set("tasks", g.tasks_in_program ? 1 : 0);
     bool dispatch_mode = r.chance(0.4);
     p.set("mode", dispatch_mode ? "dispatch" : "blocking");
@@ -339,7 +342,8 @@ Program gen_core(const std::string &campaign, uint64_t seed, bool thorough) {
                     g.gen_op(where, (Cat)c, true);
                     if (p.ops.back().name == "ctx_quit") quit_somewhere = true;
                 }
-                if (cb == CB_START && r.chance(0.2)) p.add(where, "ret", {0});
+                // (avoid(known finding: task thread vs module stop): a refusing start callback stops the module, not next to task sources outside C04)
+                if (cb == CB_START && r.chance(0.2) && !(g.tasks_in_program && campaign != "C04")) p.add(where, "ret", {0});
             }
         }
     }
